@@ -135,7 +135,8 @@ package conf
 // (io.EOF, every element closed). Line grammar: every scanned line is trimmed; comment and blank lines are
 // ignored; every other line is recorded, and if its key (text before the first '=', trimmed) is non-empty
 // a leaf with exactly that key and the trimmed text after the first '=' is stored in the current domain.
-// No frame is given (the element tree is rebuilt in place).
+// A domain that is opened again is re-entered, never replaced: a new domain node is stored only under a name
+// the current domain does not have yet. No frame is given (the element tree is rebuilt in place).
 //
 //@ func (*Conf).InitFromBytes
 //@   requires confOK(c)
@@ -154,6 +155,7 @@ package conf
 //@   site addChild#0 assert [C17] c.pendKey && !c.pendLine && $0 == currNode && $1 == lineKey(confLine(lineDecoder.cur))
 //@   site addChild#0 assert [C17] $2 != nil && $2.kind == 1 && $2.name == $1 && $2.value == lineVal(confLine(lineDecoder.cur))
 //@   site addChild#0 ghost c.pendKey = false
+//@   site addChild#1 assert [C17] $0 == currNode && !haskey(currNode.children, $1) && $2 != nil && $2.kind == 0 && $2.name == $1
 //@   site Scanner).Scan#0 assert [C17] !c.pendLine && !c.pendKey
 //@   ensures [C17] result == nil ==> c.xerr == io.EOF
 //@   ensures confOK(c)
